@@ -757,3 +757,11 @@ Section Corollaries.
     - rewrite current_sum_keys. exact ND.
   Qed.
 End Corollaries.
+
+(* Execute does not look at its context: whenever the caller cancels it, the run is the ordinary run. *)
+Lemma run_ctx_is_run :
+  forall (tree content : Type) (H : content -> option bytes) (dirc : tree -> option bytes -> bytes -> content)
+         (gen : tree -> bytes -> tree) (locals : tree -> list bytes -> list (bytes * bool))
+         (fx : fixes) (c : ctxstate) (a : runargs) (st : state tree),
+    run_ctx tree content H dirc gen locals fx c a st = run tree content H dirc gen locals fx a st.
+Proof. reflexivity. Qed.
